@@ -214,13 +214,16 @@ ExcRule(log) ==
      ELSE IF FailedOf(log, log[i].own) # {} THEN log[i].out = Fail(FailedOf(log, log[i].own))
      ELSE log[i].out = None
 
-\* when a frame (a with) has finished, every variable it assigned temporarily holds the value it
-\* had before the FIRST such assignment, whatever else was assigned in between
+\* when a `with` has finished - and when a frame without deferred callbacks has finished - every variable
+\* it assigned temporarily holds the value it had before the FIRST such assignment, whatever else was
+\* assigned in between.  (With callbacks the claim is false: `defer { set a[1] = 5 }; tmp a = [..]` - the
+\* callback registered earlier runs AFTER the restore; TLC finds this program at 3 nodes.)
 FirstOld(log, o, x) ==
   LET S == {j \in Pos(log) : log[j].e = "assign" /\ log[j].own = o /\ log[j].x = x}
   IN IF S = {} THEN <<>> ELSE <<log[CHOOSE j \in S : \A m \in S : j <= m].old>>
+HasCallbacks(log, o) == \E j \in Pos(log) : log[j].e = "reg" /\ log[j].own = o
 StoreRestored(log) ==
-  \A i \in Pos(log) : log[i].e \in {"ret", "wexit"} =>
+  \A i \in Pos(log) : (log[i].e = "wexit" \/ (log[i].e = "ret" /\ ~HasCallbacks(log, log[i].own))) =>
      \A x \in {"a", "b"} : LET f == FirstOld(log, log[i].own, x) IN f = <<>> \/ log[i].st[x] = f[1]
 
 RECURSIVE HasSet(_)
